@@ -123,9 +123,23 @@ impl Block for SymbolSync {
         // TODO: get rid of unwrap.
         let mut out_clock = self.out_clock.as_mut().map(|x| x.write_buf().unwrap());
 
+        // The clock output gets one value per symbol: it needs room too.
+        if let Some(ref clock) = out_clock {
+            if clock.is_empty() {
+                drop(out_clock);
+                return Ok(BlockRet::WaitForStream(
+                    self.out_clock.as_ref().expect("can't happen"),
+                    1,
+                ));
+            }
+        }
+
         let mut n = 0; // Samples consumed.
         let mut opos = 0; // Current output position.
-        let olen = o.len();
+        let olen = match out_clock {
+            Some(ref clock) => std::cmp::min(o.len(), clock.len()),
+            None => o.len(),
+        };
         let oslice = o.slice();
         for sample in input.iter() {
             if opos == olen {
